@@ -43,6 +43,7 @@ def run(chk):
     cs = CaseSet("c03")
     plan = []
     for wi in range(nworlds):
+        rng.seed("%d/c03-1/%d" % (chk.seed, wi))      # every world has its own stream: families do not disturb each other
         modelled = rng.random() < 0.6
         wj, sph = area_world(rng) if modelled else any_world(rng)
         if rng.random() < 0.15:
